@@ -373,14 +373,16 @@ fn push_impl_t_bounds(
     }
 }
 
+/// Bounds on the dependency parameter that are no requirement of the impl:
+/// relaxed bounds (`?Sized`), and outlives bounds naming a lifetime of the fn (`D: 'a`, implied by `&'a D`)
 fn is_relaxed_bound(bound: &syn::TypeParamBound) -> bool {
-    matches!(
-        bound,
-        syn::TypeParamBound::Trait(syn::TraitBound {
-            modifier: syn::TraitBoundModifier::Maybe(_),
-            ..
-        })
-    )
+    match bound {
+        syn::TypeParamBound::Trait(trait_bound) => {
+            matches!(trait_bound.modifier, syn::TraitBoundModifier::Maybe(_))
+        }
+        syn::TypeParamBound::Lifetime(lifetime) => lifetime.ident != "static",
+        _ => false,
+    }
 }
 
 /// `::core::marker::$ident`, independent of what the invoking scope calls `Sync` or `Send`
